@@ -42,6 +42,7 @@ macro_rules! c13_safe_join {
 }
 c13_safe_join!(c13_ws_safe_join_len2, 2, 6);
 c13_safe_join!(c13_ws_safe_join_len3, 3, 7);
+c13_safe_join!(c13_ws_safe_join_len4, 4, 8);
 
 // C13 -- the checkpoint resolver Workspace::to_relative. A symbolic-bytes harness (2 bytes over {'.','a'}, root "/")
 // FOUND the defect fixed in 675a19f (the request ".." was accepted, 349 s). On the repaired code the same harness
